@@ -6,7 +6,7 @@
 import Cog.Sem.SrcDen
 import Cog.Passes.Visitor
 import Cog.OMap.Lemmas
-namespace Cog.Sem
+namespace Cog.Sem.Src
 open Cog.IR Cog.Passes
 open Cog.OMap (rget rset)
 
@@ -229,4 +229,4 @@ theorem visitSchemaSt_id (v : Ty → NewObjs → Outcome (Ty × NewObjs)) (s : S
   rw [visitObjectsSt_id v [] s.objects [] (wfObjects_freshAgainst _ hw) hv]
   simp [flushNew, addObjects]
 
-end Cog.Sem
+end Cog.Sem.Src
